@@ -112,6 +112,42 @@ def o_expr(src, envs, family):
     return None
 
 
+# the three-argument calling convention predicate(obj, list, context) that RepeatUntil uses: obj_ and list_ in one expression,
+# under every kind of node (unary, binary, function, item)
+THREE = [
+    ('-list_[-1]', lambda o, l, c: -l[-1]), ('+list_[0]', lambda o, l, c: +l[0]), ('~(list_[-1] == 255)', lambda o, l, c: not (l[-1] == 255)),
+    ('-len_(list_)', lambda o, l, c: -len(l)), ('-(list_[0] + obj_)', lambda o, l, c: -(l[0] + o)), ('abs_(-list_[-1])', lambda o, l, c: abs(-l[-1])),
+    ('-(obj_ - list_[-2])', lambda o, l, c: -(o - l[-2])), ('list_[-1] * -obj_', lambda o, l, c: l[-1] * -o),
+    ('~(obj_ == list_[-1])', lambda o, l, c: not (o == l[-1])), ('-(-list_[0])', lambda o, l, c: -(-l[0])), ('+(-(+list_[1]))', lambda o, l, c: +(-(+l[1]))),
+    ('sum_(list_) - obj_', lambda o, l, c: sum(l) - o), ('-sum_(list_)', lambda o, l, c: -sum(l)), ('max_(list_) == obj_', lambda o, l, c: max(l) == o),
+    ('(list_[0] < obj_) & ~(list_[-1] > 3)', lambda o, l, c: (l[0] < o) & (not (l[-1] > 3))), ('-obj_', lambda o, l, c: -o), ('len_(list_) >= -(-2)', lambda o, l, c: len(l) >= 2),
+]
+
+
+@C.oracle('expr3')
+def o_expr3(src, idx, envs):
+    e = eval(src, dict(NS))
+    nat_f = THREE[idx][1]
+    for o, l, c in envs:
+        ctx = construct.Container(c)
+        nat = outcome(lambda: nat_f(o, l, c))
+        got = outcome(lambda: e(o, l, ctx))
+        if nat != got:
+            return 'called as predicate(%r, %r, %r) the expression gives %r, natively %r' % (o, l, c, got, nat)
+    return None
+
+
+@C.oracle('repeat_pred')
+def o_repeat_pred(src, data, want):
+    try:
+        got = list(C.get(src).parse(data))
+    except Exception as e:
+        return 'parse raised %s: %s' % (type(e).__name__, str(e)[:80])
+    if got != want:
+        return 'parse(%r) = %r, the predicate spelled in Python stops at %r' % (data, got, want)
+    return None
+
+
 TREES = {}
 
 
@@ -265,6 +301,14 @@ def run(tier, seed):
         f = lambda r: ('exc',) if r[0] == 'RErr' else r
         return (f(m), f(i)) if (m[0] == 'RErr' and i[0] == 'RErr') else (m, i)
     acc.corr(cases, 'eval', project=proj)
+    envs3 = [(5, [1, 2, 5], dict(k=3)), (0, [255, 0], dict(k=0)), (-7, [3, -7], dict(k=2)), (255, [254, 255], dict(k=1)), (1, [1], dict(k=3)), (2, [], dict(k=0))]
+    for i, (src, _) in enumerate(THREE):
+        acc.check('expr3', src, idx=i, envs=envs3)
+        # and as the predicate of a RepeatUntil, where the library itself makes the three-argument call
+    for pred, data, want in [('-list_[-1] == -3', b'\x01\x02\x03\x04', [1, 2, 3]), ('~(list_[-1] != 2)', b'\x01\x02\x03', [1, 2]),
+                             ('-len_(list_) == -2', b'\x09\x08\x07', [9, 8]), ('+obj_ == 4', b'\x01\x04\x05', [1, 4]),
+                             ('abs_(-list_[0]) + obj_ == 10', b'\x03\x04\x07\x01', [3, 4, 7])]:
+        acc.check('repeat_pred', 'RepeatUntil(%s, Byte)' % pred, data=data, want=want)
     return acc.result(
         rule='expression trees: every binary operator with an expression on either side and int/bool/str/bytes/negative constants on the '
              'other, every unary inside every binary on either side, unary chains to depth 3, two-level binary nests, plus PRNG trees of '
